@@ -230,6 +230,8 @@ func (c *XAConn) keepIfNecessary() {
 	if c.ShouldBeHeld() {
 		if err := c.res.Hold(c.xaBranchXid.String(), c); err == nil {
 			c.isConnKept = true
+			// phase one of this branch is running: the two-phase hold time does not apply yet
+			c.prepareTime = time.Time{}
 		}
 	}
 }
@@ -348,6 +350,9 @@ func (c *XAConn) Commit(ctx context.Context) error {
 	if c.checkTimeout(ctx, now) != nil {
 		return c.commitErrorHandle(ctx)
 	}
+
+	// from here on the two-phase hold time of a held connection runs
+	c.prepareTime = now
 
 	if err := c.xaResource.XAPrepare(ctx, c.xaBranchXid.String()); err != nil {
 		return c.commitFailure(ctx, err)
